@@ -311,8 +311,12 @@ class BaseEvent(BaseModel, Generic[T_EventResultType]):
                             try:
                                 if bus.event_queue.qsize() > 0:
                                     event = bus.event_queue.get_nowait()
-                                    await bus.process_event(event)
-                                    bus.event_queue.task_done()
+                                    try:
+                                        await bus.process_event(event)
+                                    finally:
+                                        # balance the queue's accounting on every exit (error, handler timeout cancelling us),
+                                        # otherwise wait_until_idle() on that bus hangs forever
+                                        bus.event_queue.task_done()
                                     processed_any = True
                                     # Check if the event we're waiting for is now complete
                                     if self.event_completed_signal.is_set():
